@@ -1,6 +1,6 @@
 (* C10 — unknown node or child triggers one presentation request per episode (2.x). *)
-From Coq Require Import List NArith ZArith String.
-From AMS Require Import Models GatewayFacts GatewayInv GatewaySteps GatewayTrace.
+From Coq Require Import List NArith ZArith String Lia.
+From AMS Require Import Models Codec GatewayFacts GatewayInv GatewaySteps GatewayTrace GatewayMarker.
 Import ListNotations.
 Local Open Scope Z_scope.
 
@@ -86,6 +86,59 @@ Theorem C10_rejected_line_is_silent :
 Proof. exact rejected_line_keeps_everything. Qed.
 Print Assumptions C10_rejected_line_is_silent.
 
+(* ---------- the life of one node's marker, for EVERY line, state, oracle, fault stream ---------- *)
+
+(* a message of another node leaves n's marker as it is and writes no request to n *)
+Theorem C10_foreign_step :
+  forall bat vlt now n line s m,
+    sbuf_ok (s_w s) -> decode (proto_of (s_w s)) line = DecOk m -> m_node m <> n ->
+    hm n (snd (listen_step bat vlt now line s)) = hm n s
+    /\ exists new, new_events bat vlt now line s new /\ Forall (nr n) new.
+Proof. exact foreign_step. Qed.
+Print Assumptions C10_foreign_step.
+
+(* while a request to n is outstanding, no message other than n's own node presentation makes
+   the controller write another one, and the marker stays *)
+Theorem C10_outstanding_step :
+  forall bat vlt now n line s m,
+    sbuf_ok (s_w s) -> decode (proto_of (s_w s)) line = DecOk m ->
+    hm n s = true -> is_node_presentation_of_n n m = false ->
+    hm n (snd (listen_step bat vlt now line s)) = true
+    /\ exists new, new_events bat vlt now line s new /\ Forall (nr n) new.
+Proof. exact outstanding_step. Qed.
+Print Assumptions C10_outstanding_step.
+
+(* every step writes no request to n or exactly one; one is written only for a message of n
+   itself when none was outstanding (or n has just presented itself), the step then ends in an
+   error, a successful write is recorded, and when nothing is recorded afterwards ("a request
+   whose write failed does not count") the error is the transport's, not a missing-node/child one *)
+Theorem C10_one_request_step :
+  forall bat vlt now n line s m,
+    sbuf_ok (s_w s) -> decode (proto_of (s_w s)) line = DecOk m ->
+    exists new, new_events bat vlt now line s new
+      /\ (Forall (nr n) new
+          \/ (m_node m = n
+              /\ (hm n s = false \/ is_node_presentation_of_n n m = true)
+              /\ (exists err, fst (listen_step bat vlt now line s) = inr err
+                              /\ (hm n (snd (listen_step bat vlt now line s)) = false -> is_missing err = false))
+              /\ exists a e b, new = a ++ e :: b /\ isreq n e /\ Forall (nr n) a /\ Forall (nr n) b
+                 /\ (we_ok e = true -> hm n (snd (listen_step bat vlt now line s)) = true))).
+Proof. exact one_request_step. Qed.
+Print Assumptions C10_one_request_step.
+
+(* THE EPISODE over whole histories: once a request to n is outstanding, no continuation —
+   lines from any node with any fault stream, set commands sent by the application,
+   reconnects — writes another request to n, until n presents itself *)
+Theorem C10_outstanding_history :
+  forall bat vlt now n ops w,
+    Inv vlt w ->
+    Forall (fun o => op_ok o /\ app_op o /\ not_presentation_of_n n o) ops ->
+    wm n w = true ->
+    Forall (fun x => Forall (nr n) (snd x)) (trace bat vlt now w ops)
+    /\ wm n (run_ops bat vlt now w ops) = true.
+Proof. exact outstanding_history. Qed.
+Print Assumptions C10_outstanding_history.
+
 (* which handlers carry the wrapper, from the generated tables: none before 2.0;
    from 2.0 on every handler that can raise a missing-node/child error *)
 Theorem C10_tables :
@@ -125,3 +178,20 @@ Example C10_example :
   /\ (snd (fst r5), map we_line (snd r5)) = (Raise (EMissingChild 1), [nl "7;255;3;0;19;"])
   /\ (snd (fst q1), snd q1) = (Raise (EMissingNode 7), []).
 Proof. vm_compute. repeat split. Qed.
+
+(* non-vacuity of C10_outstanding_history: after the request of r2 above is outstanding, a
+   history of further traffic of node 7 and of node 8 (unknown too: it gets its own request) *)
+Example C10_history_example :
+  let w2 := fst (fst (ex_step (fst (fst (ex_step (ex_start "0;255;3;0;2;2.1") "7;1;1;0;2;1" [true]))) "7;1;1;0;2;1" [])) in
+  let ops := [ORecv (lit "7;255;3;0;0;55") []; ORecv (lit "8;1;1;0;2;1") []; ORecv (lit "7;2;2;0;3;") [true];
+              OReconnect; OSend (mk_msg 7 1 1 0 2 (lit "1")) true []; ORecv (lit "7;1;0;0;3;") []] in
+  wm 7 w2 = true
+  /\ Forall (fun o => op_ok o /\ app_op o /\ not_presentation_of_n 7 o) ops
+  /\ map (fun x => List.length (snd x)) (trace ex_bat ex_vlt 0 w2 ops) = [0; 1; 0; 0; 1; 0]%nat.
+Proof.
+  split; [vm_compute; reflexivity|split; [|vm_compute; reflexivity]].
+  repeat (apply Forall_cons; [|]); try apply Forall_nil.
+  all: cbn [op_ok app_op not_presentation_of_n]; repeat split; try exact I; try reflexivity.
+  all: try (cbn [mk_msg m_node m_child m_cmd m_ack m_type] in *; lia).
+  all: intros m E; vm_compute in E; injection E as <-; reflexivity.
+Qed.
